@@ -564,6 +564,9 @@ func RunMapInitExpr(ctx *Task, expr *ast.MapLiteral) *errchain.PlError {
 // }
 
 func RunIndexExprGet(ctx *Task, expr *ast.IndexExpr) *errchain.PlError {
+	if expr.Obj == nil {
+		return NewRunError(ctx, "index expression has no object", ast.NodeStartPos(ast.WrapIndexExpr(expr)))
+	}
 	key := expr.Obj.Name
 
 	varb, err := ctx.GetKey(key)
@@ -939,6 +942,9 @@ func RunAssignmentExpr(ctx *Task, expr *ast.AssignmentExpr) *errchain.PlError {
 			case ast.TypeIdentifier:
 				ctx.SetVarb(e.Identifier().Name, r)
 			case ast.TypeIndexExpr:
+				if e.IndexExpr().Obj == nil {
+					return NewRunError(ctx, "index expression has no object", e.StartPos())
+				}
 				if varb, err := ctx.GetKey(e.IndexExpr().Obj.Name); err != nil {
 					return NewRunError(ctx, err.Error(), e.IndexExpr().Obj.Start)
 				} else {
@@ -955,6 +961,9 @@ func RunAssignmentExpr(ctx *Task, expr *ast.AssignmentExpr) *errchain.PlError {
 			case ast.TypeIdentifier:
 				ctx.SetVarb(e.Identifier().Name, vals[i])
 			case ast.TypeIndexExpr:
+				if e.IndexExpr().Obj == nil {
+					return NewRunError(ctx, "index expression has no object", e.StartPos())
+				}
 				if varb, err := ctx.GetKey(e.IndexExpr().Obj.Name); err != nil {
 					return NewRunError(ctx, err.Error(), e.IndexExpr().Obj.Start)
 				} else {
